@@ -94,14 +94,14 @@ def single_assignments(fn):
 
 def inline(expr, singles, depth=6):
     """substitute single-assignment temporaries into expr (returns a new AST)"""
-    import copy
+    from .srcmodel import clone
 
     class T(ast.NodeTransformer):
         def visit_Name(self, n):
             if isinstance(n.ctx, ast.Load) and n.id in singles and depth > 0:
-                return inline(copy.deepcopy(singles[n.id]), singles, depth - 1)
+                return inline(singles[n.id], singles, depth - 1)
             return n
-    return T().visit(copy.deepcopy(expr))
+    return T().visit(clone(expr))
 
 
 def assignments_to(fn, name):
